@@ -255,11 +255,17 @@ def r2_codec_plumb(ck, F):
             e = agg_field_expr(b, s, rv, "block_size")
             ck.ob(R, "builder-to-writer/block_size", is_self_field(e, "block_size"), f"Writer.block_size := {e.show()}", b, s)
     for fld in ("compression_type", "compression_level"):
-        st = field_stores(F, A("writer_builder"), fld)
-        for b, site, s in st:
-            e = b._expr_of_def((site, "assign", s["rv"]))
-            ck.ob(R, f"setter/{fld}", b.path.endswith("WriterBuilder::" + fld) and e.strip().k == "arg", f"WriterBuilder.{fld} := {e.show()} in {b.path}", b, site)
-        ck.exact(R, f"stores to WriterBuilder.{fld}", len(st), 1, F.config)
+        # the setter stores its argument into one field (of the builder, or of a private struct the builder keeps its
+        # compression settings in), and nothing else in the crate assigns that field
+        sb = F.body(A("writer_builder") + "::" + fld)
+        mine = [(site, s) for site, s in sb.sites() if site.i is not None and s["s"] == "assign" and s["pl"]["p"] and isinstance(s["pl"]["p"][-1], dict) and "name" in s["pl"]["p"][-1]]
+        n_all = 0
+        for site, s in mine:
+            e = sb._expr_of_def((site, "assign", s["rv"]))
+            last = s["pl"]["p"][-1]
+            ck.ob(R, f"setter/{fld}", e.strip().k == "arg", f"WriterBuilder::{fld} stores {e.show()} into {last.get('adt', '?').split('::')[-1]}.{last['name']}", sb, site)
+            n_all += len(field_stores(F, last.get("adt"), last["name"]))
+        ck.exact(R, f"stores to WriterBuilder.{fld}", len(mine) if n_all == len(mine) else n_all, 1, F.config)
     # reader side: every block load decodes with the codec named in the trailer
     loads = []
     for b in F.user_bodies():
